@@ -12,6 +12,7 @@ import (
 	"go/printer"
 	"go/token"
 	"go/types"
+	"path/filepath"
 	"sort"
 	"strings"
 )
@@ -515,6 +516,47 @@ func init() {
 		if n == 0 {
 			probs = append(probs, "no constructor of openapiv3.Generator found")
 		}
+		// ... and nothing is attached afterwards: no function of the package assigns a field of a Generator from an
+		// expression that mentions one of its parameters of non-value type (a setter for a shared cache, registry, ...)
+		for _, fi := range w.Funcs {
+			if fi.Obj.Pkg() != oa || fi.Decl == nil || fi.Decl.Body == nil {
+				continue
+			}
+			info := fi.Pkg.TypesInfo
+			sig := fi.Obj.Type().(*types.Signature)
+			shared := map[*types.Var]bool{}
+			for i := 0; i < sig.Params().Len(); i++ {
+				if pv := sig.Params().At(i); !valueLike(pv.Type()) && !isGen(pv.Type()) {
+					if _, isIface := pv.Type().Underlying().(*types.Interface); !isIface {
+						shared[pv] = true
+					}
+				}
+			}
+			if len(shared) == 0 {
+				continue
+			}
+			ast.Inspect(fi.Decl.Body, func(nd ast.Node) bool {
+				as, ok := nd.(*ast.AssignStmt)
+				if !ok {
+					return true
+				}
+				for i, l := range as.Lhs {
+					sel, ok := l.(*ast.SelectorExpr)
+					if !ok || !isGen(info.TypeOf(sel.X)) || i >= len(as.Rhs) {
+						continue
+					}
+					ast.Inspect(as.Rhs[i], func(m ast.Node) bool {
+						if id, ok := m.(*ast.Ident); ok {
+							if v, ok := info.Uses[id].(*types.Var); ok && shared[v] {
+								probs = append(probs, fmt.Sprintf("%s stores its parameter %s (%s) in Generator.%s: state attached to a generator after construction can be shared between the documents of one invocation (%s)", shortKey(fi.Obj), v.Name(), v.Type(), sel.Sel.Name, w.pos(as.Pos())))
+							}
+						}
+						return true
+					})
+				}
+				return true
+			})
+		}
 		// fields of Generator holding repository-declared mutable objects must be created inside the constructor: no
 		// package-level variable of a reference type in openapiv3 (c15.pure covers reads of package state in general)
 		if oa != nil {
@@ -531,7 +573,7 @@ func init() {
 				}
 			}
 		}
-		return []OblResult{structResult("C15.openapi.isolated", "every constructor of openapiv3.Generator takes values only (basic types, descriptors) and the package has no package-level variable of a reference type: the documents of one invocation share no mutable object", probs)}
+		return []OblResult{structResult("C15.openapi.isolated", "every constructor of openapiv3.Generator takes values only (basic types, descriptors), no function of the package stores a non-value parameter in a Generator field afterwards, and the package has no package-level variable of a reference type: the documents of one invocation share no mutable object", probs)}
 	}
 }
 
@@ -1321,4 +1363,318 @@ func sharedMutableType(t types.Type, depth int) string {
 		return sharedMutableType(u.Elem(), depth+1)
 	}
 	return ""
+}
+
+// ---------------------------------------------------------------------------------------
+// C17: slice and map ownership in the emitted runtime. Go slices alias their backing array: append(s[:0], x), or an
+// append to / an element store into a slice or map that came in as a parameter, a captured variable, a field or the
+// result of a call, may write memory that other requests (other routes, other calls) read. The rule: in the emitted
+// server and client templates, every append target and every element store goes to a container the function created
+// itself (var declaration, make, composite literal, nil, the result of its own append to such a container, or the
+// result of an emitted function all of whose returns are such containers).
+func init() {
+	structuralRules["emitted.c17.containers"] = func(w *World) []OblResult {
+		var probs []string
+		if w.Emitted == nil || w.EmittedClient == nil {
+			return []OblResult{structResult("C17.containers.owned", "", []string{"emitted package not loaded"})}
+		}
+		isTemplateFunc := func(fi *FuncInfo) bool {
+			if fi.Decl == nil || fi.Decl.Body == nil {
+				return false
+			}
+			if fi.Obj.Pkg() != w.Emitted.Types && fi.Obj.Pkg() != w.EmittedClient.Types {
+				return false
+			}
+			base := filepath.Base(w.Fset.Position(fi.Decl.Pos()).Filename)
+			return strings.Contains(base, "_") // <name>.pb.go is protoc-gen-go's own output
+		}
+		isContainer := func(t types.Type) bool {
+			if t == nil {
+				return false
+			}
+			switch t.Underlying().(type) {
+			case *types.Slice, *types.Map:
+				return true
+			}
+			return false
+		}
+		// fixpoint: which emitted functions return only containers they created themselves
+		returnsFresh := map[*types.Func]bool{}
+		var freshExpr func(info *types.Info, e ast.Expr, freshVar map[*types.Var]bool) bool
+		freshExpr = func(info *types.Info, e ast.Expr, freshVar map[*types.Var]bool) bool {
+			switch x := unparen(e).(type) {
+			case *ast.CompositeLit:
+				return true
+			case *ast.SliceExpr:
+				return freshExpr(info, x.X, freshVar) // a window onto an own array is own memory
+			case *ast.Ident:
+				if x.Name == "nil" {
+					return true
+				}
+				if v, ok := info.Uses[x].(*types.Var); ok {
+					return freshVar[v]
+				}
+			case *ast.CallExpr:
+				if id, ok := unparen(x.Fun).(*ast.Ident); ok {
+					if _, isB := info.Uses[id].(*types.Builtin); isB {
+						switch id.Name {
+						case "make":
+							return true
+						case "append":
+							return len(x.Args) > 0 && freshExpr(info, x.Args[0], freshVar)
+						}
+					}
+					if f, ok := info.Uses[id].(*types.Func); ok {
+						return returnsFresh[f]
+					}
+				}
+				if tv, ok := info.Types[x.Fun]; ok && tv.IsType() {
+					// conversion, e.g. []byte(s) of a string allocates
+					if b, isB := info.TypeOf(x.Args[0]).Underlying().(*types.Basic); isB && b.Info()&types.IsString != 0 {
+						return true
+					}
+				}
+			}
+			return false
+		}
+		analyse := func(fi *FuncInfo, report bool) (allReturnsFresh bool) {
+			info := fi.Pkg.TypesInfo
+			// candidate locals: container-typed variables declared in the body (not parameters, not captured from outside)
+			freshVar := map[*types.Var]bool{}
+			ast.Inspect(fi.Decl.Body, func(n ast.Node) bool {
+				if id, ok := n.(*ast.Ident); ok {
+					if v, ok := info.Defs[id].(*types.Var); ok && !v.IsField() && isContainer(v.Type()) {
+						freshVar[v] = true
+					}
+				}
+				return true
+			})
+			// parameters and results are not fresh
+			sig := fi.Obj.Type().(*types.Signature)
+			for i := 0; i < sig.Params().Len(); i++ {
+				delete(freshVar, sig.Params().At(i))
+			}
+			ast.Inspect(fi.Decl.Body, func(n ast.Node) bool {
+				if fl, ok := n.(*ast.FuncLit); ok {
+					for _, f := range fl.Type.Params.List {
+						for _, nm := range f.Names {
+							if v, ok := info.Defs[nm].(*types.Var); ok {
+								delete(freshVar, v)
+							}
+						}
+					}
+				}
+				return true
+			})
+			// range variables and variables assigned from anything that is not fresh lose the status (to a fixpoint)
+			for changed := true; changed; {
+				changed = false
+				drop := func(v *types.Var) {
+					if freshVar[v] {
+						delete(freshVar, v)
+						changed = true
+					}
+				}
+				ast.Inspect(fi.Decl.Body, func(n ast.Node) bool {
+					switch x := n.(type) {
+					case *ast.RangeStmt:
+						for _, e := range []ast.Expr{x.Key, x.Value} {
+							if id, ok := e.(*ast.Ident); ok {
+								if v, ok := info.Defs[id].(*types.Var); ok {
+									drop(v)
+								}
+							}
+						}
+					case *ast.AssignStmt:
+						if len(x.Lhs) == len(x.Rhs) {
+							for i, l := range x.Lhs {
+								if id, ok := l.(*ast.Ident); ok {
+									v, _ := info.Defs[id].(*types.Var)
+									if v == nil {
+										v, _ = info.Uses[id].(*types.Var)
+									}
+									if v != nil && isContainer(v.Type()) && !freshExpr(info, x.Rhs[i], freshVar) {
+										drop(v)
+									}
+								}
+							}
+						} else {
+							for _, l := range x.Lhs {
+								if id, ok := l.(*ast.Ident); ok {
+									v, _ := info.Defs[id].(*types.Var)
+									if v == nil {
+										v, _ = info.Uses[id].(*types.Var)
+									}
+									if v != nil && isContainer(v.Type()) {
+										drop(v) // multi-value call results: not known to be fresh
+									}
+								}
+							}
+						}
+					case *ast.ValueSpec:
+						for i, nm := range x.Names {
+							if v, ok := info.Defs[nm].(*types.Var); ok && i < len(x.Values) && isContainer(v.Type()) && !freshExpr(info, x.Values[i], freshVar) {
+								drop(v)
+							}
+						}
+					}
+					return true
+				})
+			}
+			// two owners that are not created here but are owned by construction: the receiver of a decoder (UnmarshalJSON fills
+			// the message it was called on) and the object an option function literal configures (a client under construction
+			// or the call-local options of one call; rule C17.client.frame shows options are applied nowhere else)
+			ownedRoots := map[*types.Var]bool{}
+			if sig.Recv() != nil && fi.Obj.Name() == "UnmarshalJSON" {
+				ownedRoots[sig.Recv()] = true
+			}
+			ast.Inspect(fi.Decl.Body, func(n ast.Node) bool {
+				if fl, ok := n.(*ast.FuncLit); ok {
+					isOption := false
+					ast.Inspect(fi.Decl, func(m ast.Node) bool {
+						if ft, ok := m.(*ast.FuncType); ok && ft.Results != nil {
+							for _, r := range ft.Results.List {
+								if t := info.TypeOf(r.Type); t != nil {
+									if nt, ok := t.(*types.Named); ok && strings.HasSuffix(nt.Obj().Name(), "Option") {
+										isOption = true
+									}
+								}
+							}
+						}
+						return true
+					})
+					if isOption {
+						for _, f := range fl.Type.Params.List {
+							for _, nm := range f.Names {
+								if v, ok := info.Defs[nm].(*types.Var); ok {
+									ownedRoots[v] = true
+								}
+							}
+						}
+					}
+				}
+				return true
+			})
+			fieldOfOwnedRoot := func(e ast.Expr) bool {
+				if sel, ok := unparen(e).(*ast.SelectorExpr); ok {
+					if rid, ok := unparen(sel.X).(*ast.Ident); ok {
+						if rv, ok := info.Uses[rid].(*types.Var); ok && ownedRoots[rv] {
+							return true
+						}
+					}
+				}
+				return false
+			}
+			allReturnsFresh = true
+			sawReturn := false
+			ast.Inspect(fi.Decl.Body, func(n ast.Node) bool {
+				switch x := n.(type) {
+				case *ast.FuncLit:
+					return true
+				case *ast.ReturnStmt:
+					for _, r := range x.Results {
+						if isContainer(info.TypeOf(r)) {
+							sawReturn = true
+							if !freshExpr(info, r, freshVar) {
+								allReturnsFresh = false
+							}
+						}
+					}
+				case *ast.CallExpr:
+					if !report {
+						return true
+					}
+					if id, ok := unparen(x.Fun).(*ast.Ident); ok && id.Name == "append" && len(x.Args) > 0 {
+						if _, isB := info.Uses[id].(*types.Builtin); isB && !freshExpr(info, x.Args[0], freshVar) && !fieldOfOwnedRoot(x.Args[0]) {
+							// append to a field of an object the function created itself is the object's own slice
+							if sel, ok := unparen(x.Args[0]).(*ast.SelectorExpr); ok {
+								if rid, ok := unparen(sel.X).(*ast.Ident); ok {
+									if rv, ok := info.Uses[rid].(*types.Var); ok && ownedObject(info, fi.Decl.Body, rv) {
+										return true
+									}
+								}
+							}
+							probs = append(probs, fmt.Sprintf("%s appends to %s, a slice it did not create (its backing array may be shared) (%s)", fi.Obj.Name(), exprText(w.Fset, x.Args[0]), w.pos(x.Pos())))
+						}
+					}
+				case *ast.AssignStmt:
+					if !report {
+						return true
+					}
+					for _, l := range x.Lhs {
+						if ix, ok := l.(*ast.IndexExpr); ok && isContainer(info.TypeOf(ix.X)) && !freshExpr(info, ix.X, freshVar) && !fieldOfOwnedRoot(ix.X) {
+							probs = append(probs, fmt.Sprintf("%s stores into an element of %s, a container it did not create (%s)", fi.Obj.Name(), exprText(w.Fset, ix.X), w.pos(x.Pos())))
+						}
+					}
+				}
+				return true
+			})
+			return allReturnsFresh && sawReturn
+		}
+		var fis []*FuncInfo
+		for _, k := range w.sortedFuncNames() {
+			if fi := w.Funcs[k]; isTemplateFunc(fi) {
+				fis = append(fis, fi)
+			}
+		}
+		for changed := true; changed; {
+			changed = false
+			for _, fi := range fis {
+				if r := analyse(fi, false); r != returnsFresh[fi.Obj] {
+					returnsFresh[fi.Obj] = r
+					changed = true
+				}
+			}
+		}
+		for _, fi := range fis {
+			analyse(fi, true)
+		}
+		return []OblResult{structResult("C17.containers.owned", "in the emitted server and client templates every append and every element store goes to a slice or map the function created itself (declaration, make, literal, its own append, or an emitted function returning only such containers): no request-time code can write into a backing array or map shared with another route, request or call", uniq(probs))}
+	}
+}
+
+// ownedObject: v is a local that is only ever assigned the address of / a composite literal, or new(T).
+func ownedObject(info *types.Info, body ast.Node, v *types.Var) bool {
+	owned, assigned := true, false
+	ast.Inspect(body, func(n ast.Node) bool {
+		as, ok := n.(*ast.AssignStmt)
+		if !ok || len(as.Lhs) != len(as.Rhs) {
+			return true
+		}
+		for i, l := range as.Lhs {
+			id, ok := l.(*ast.Ident)
+			if !ok {
+				continue
+			}
+			lv, _ := info.Defs[id].(*types.Var)
+			if lv == nil {
+				lv, _ = info.Uses[id].(*types.Var)
+			}
+			if lv != v {
+				continue
+			}
+			assigned = true
+			r := unparen(as.Rhs[i])
+			if u, ok := r.(*ast.UnaryExpr); ok && u.Op == token.AND {
+				r = unparen(u.X)
+			}
+			switch x := r.(type) {
+			case *ast.CompositeLit:
+			case *ast.CallExpr:
+				if id, ok := x.Fun.(*ast.Ident); !ok || id.Name != "new" {
+					owned = false
+				}
+			default:
+				owned = false
+			}
+		}
+		return true
+	})
+	return owned && assigned
+}
+
+func exprText(fset *token.FileSet, e ast.Expr) string {
+	var b bytes.Buffer
+	printer.Fprint(&b, fset, e)
+	return b.String()
 }
